@@ -1,10 +1,11 @@
 """C16 — no lexical rule can backtrack exponentially."""
-import json, subprocess, time, os
+import json, subprocess, time, os, re
 import gen, streams
 from common import *
 
 RULE = ('pump strings prefix + unit^n + suffix (n chars 2000..8000) enumerated over prefixes x pump units (incl. the literals of every rule) x suffixes, '
-        'tokenized by the real lexer in a killable subprocess under a per-input time budget; non-trivial = distinct pump string')
+        'plus pumps derived from the parse tree of every rule (for every unbounded repeat: prefix = a sample of what precedes it in the rule, unit = samples of its whole body, '
+        'every suffix), tokenized by the real lexer in a killable subprocess under a per-input time budget; non-trivial = distinct pump string')
 ASSUMPTIONS = ['CPython re explores at most the search tree counted by `work` (time proportional to it)', 'wall-clock budget is generous (x100 over the slowest legitimate quadratic pump) to avoid noise alarms']
 PARTIAL = ['wall-clock relation (CPython re time proportional to the modelled search tree) is an assumption; every rule has a proved polynomial bound: 50 by the shape certificate, the two quoted-string rules by the parity argument (string_rules_poly)']
 TRUSTED_EXTRA = ['cost model: work = size of the complete backtracking search tree (SqlModel/RegexCost.lean)']
@@ -29,11 +30,131 @@ def pumps(ctx, size, full):
     return out
 
 
+# --- pump strings derived from the parse tree of every rule --------------------------------------------------------------------------
+# For every unbounded repeat anywhere in a rule: prefix = a string matched by what precedes the repeat in the rule (so that the rule is
+# reached: `GROUP `, `%(`, `$`, `NOT `…), unit = strings matched by the WHOLE body of the repeat (a complete comment, a multi-character
+# alternative, a word plus its spacing; also two different body samples concatenated), pump = prefix + unit^n + every suffix.
+_CAT_REP = {'CATEGORY_SPACE': ' ', 'CATEGORY_NOT_SPACE': 'a', 'CATEGORY_DIGIT': '1', 'CATEGORY_NOT_DIGIT': 'a', 'CATEGORY_WORD': 'a',
+            'CATEGORY_NOT_WORD': ' ', 'CATEGORY_LINEBREAK': '\n', 'CATEGORY_NOT_LINEBREAK': 'a'}
+_CAT_PRED = {'CATEGORY_SPACE': lambda c: c.isspace(), 'CATEGORY_NOT_SPACE': lambda c: not c.isspace(), 'CATEGORY_DIGIT': lambda c: c.isdigit(),
+             'CATEGORY_NOT_DIGIT': lambda c: not c.isdigit(), 'CATEGORY_WORD': lambda c: c.isalnum() or c == '_',
+             'CATEGORY_NOT_WORD': lambda c: not (c.isalnum() or c == '_'), 'CATEGORY_LINEBREAK': lambda c: c == '\n', 'CATEGORY_NOT_LINEBREAK': lambda c: c != '\n'}
+_NEG_CANDIDATES = ['a', ' ', '1', 'x', '\n', '-', '_', '*', "'", '"']
+
+
+def _sre():
+    try:
+        import re._parser as sp
+    except ImportError:          # Python < 3.11
+        import sre_parse as sp
+    return sp
+
+
+def _in_class(items, c):
+    for op, av in items:
+        o = str(op)
+        if o == 'LITERAL' and (chr(av) == c or chr(av).lower() == c.lower()):
+            return True
+        if o == 'RANGE' and (av[0] <= ord(c) <= av[1] or av[0] <= ord(c.upper()) <= av[1] or av[0] <= ord(c.lower()) <= av[1]):
+            return True
+        if o == 'CATEGORY' and _CAT_PRED.get(str(av), lambda _: False)(c):
+            return True
+    return False
+
+
+def _sample(seq, v, groups):
+    """a string matched by the node sequence (look-arounds and anchors ignored); v selects alternatives, class members, repeat counts"""
+    sp = _sre()
+    out = []
+    for op, av in seq:
+        o = str(op)
+        if o == 'LITERAL':
+            out.append(chr(av))
+        elif o == 'NOT_LITERAL':
+            out.append(next(c for c in _NEG_CANDIDATES if c.lower() != chr(av).lower()))
+        elif o == 'ANY':
+            out.append('a')
+        elif o == 'IN':
+            items = [it for it in av if str(it[0]) != 'NEGATE']
+            if len(items) != len(av):
+                out.append(next((c for c in _NEG_CANDIDATES if not _in_class(items, c)), '\x01'))
+            else:
+                iop, iav = items[v % len(items)]
+                io = str(iop)
+                out.append(chr(iav) if io == 'LITERAL' else chr(iav[0]) if io == 'RANGE' else _CAT_REP.get(str(iav), 'a'))
+        elif o == 'CATEGORY':
+            out.append(_CAT_REP.get(str(av), 'a'))
+        elif o == 'BRANCH':
+            alts = av[1]
+            out.append(_sample(alts[v % len(alts)], v // max(1, len(alts)), groups))
+        elif o == 'SUBPATTERN':
+            g = _sample(av[3], v, groups)
+            if av[0] is not None:
+                groups[av[0]] = g
+            out.append(g)
+        elif o == 'ATOMIC_GROUP':
+            out.append(_sample(av, v, groups))
+        elif o in ('MAX_REPEAT', 'MIN_REPEAT', 'POSSESSIVE_REPEAT'):
+            lo, hi, body = av
+            k = lo if v % 2 == 0 else lo + 1
+            if hi != sp.MAXREPEAT:
+                k = min(k, hi)
+            out.append(''.join(_sample(body, v // 2 + j, groups) for j in range(k)))
+        elif o == 'GROUPREF':
+            out.append(groups.get(av, ''))
+        # AT, ASSERT, ASSERT_NOT, GROUPREF_EXISTS: contribute no characters
+    return ''.join(out)
+
+
+def _walk(seq, pres, emit):
+    sp = _sre()
+    for i, (op, av) in enumerate(seq):
+        o = str(op)
+        before = list(dict.fromkeys(p + _sample(seq[:i], v, {}) for p in pres for v in (1, 0)))[:3]
+        if o in ('MAX_REPEAT', 'MIN_REPEAT', 'POSSESSIVE_REPEAT'):
+            lo, hi, body = av
+            if hi == sp.MAXREPEAT:
+                units = [u for u in dict.fromkeys(_sample(body, v, {}) for v in range(6)) if u][:4]
+                units += [a + b for a in units[:3] for b in units[:3] if a != b]
+                emit(before, list(dict.fromkeys(units)))
+            _walk(body, before, emit)
+        elif o == 'SUBPATTERN':
+            _walk(av[3], before, emit)
+        elif o == 'ATOMIC_GROUP':
+            _walk(av, before, emit)
+        elif o == 'BRANCH':
+            for alt in av[1]:
+                _walk(alt, before, emit)
+
+
+def derived_pumps(ctx, size):
+    """-> (pump strings, number of unbounded repeats found).  Finite and deterministic: every (rule, unbounded repeat, prefix, unit, suffix)."""
+    sp = _sre()
+    out, nrep = {}, [0]
+    for rm in ctx.meta.get('rules') or []:
+        try:
+            tree = sp.parse(rm['pattern'], re.IGNORECASE | re.UNICODE)
+        except Exception as e:
+            ctx.count('derived_pumps:unparsed:' + type(e).__name__)
+            continue
+
+        def emit(pres, units):
+            nrep[0] += 1
+            for p in pres:
+                for u in units:
+                    for sf in SUFFIXES:
+                        out.setdefault(p + u * max(2, size // len(u)) + sf, None)
+        _walk(list(tree), [''], emit)
+    return list(out), nrep[0]
+
+
 def time_inputs(inputs, budget_each):
-    """-> list of (index, seconds) and the index of an input that exceeded the budget / hung (or None)"""
-    p = subprocess.Popen([PY, os.path.join(VERIF, 'tools', 'timing_worker.py')], stdin=subprocess.PIPE, stdout=subprocess.PIPE, text=True)
-    data = ''.join(json.dumps(s) + '\n' for s in inputs)
-    import threading
+    """-> list of (index, seconds) and the index of an input that exceeded the budget / hung (or None).
+    The worker's output is read from the raw descriptor (no reader-side buffering: a buffered reader can hold completed lines back while
+    select() reports nothing to read, and the index of the hanging input would then be attributed to an earlier, innocent input)."""
+    p = subprocess.Popen([PY, os.path.join(VERIF, 'tools', 'timing_worker.py')], stdin=subprocess.PIPE, stdout=subprocess.PIPE, bufsize=0)
+    data = ''.join(json.dumps(s) + '\n' for s in inputs).encode()
+    import threading, select
     res = []
     def feed():
         try:
@@ -43,27 +164,30 @@ def time_inputs(inputs, budget_each):
             pass
     th = threading.Thread(target=feed, daemon=True)
     th.start()
-    import select
+    fd = p.stdout.fileno()
     last = time.time()
-    buf = ''
+    buf = b''
     culprit = None
-    while True:
-        r, _, _ = select.select([p.stdout], [], [], 0.5)
+    eof = False
+    while culprit is None and not eof:
+        r, _, _ = select.select([fd], [], [], 0.5)
         if r:
-            line = p.stdout.readline()
-            if not line:
-                break
-            i, t, n = line.split()
-            res.append((int(i), float(t)))
-            last = time.time()
-            if float(t) > budget_each:
-                culprit = int(i)
-                break
+            chunk = os.read(fd, 65536)
+            if not chunk:
+                eof = True
+            buf += chunk
+            while b'\n' in buf:
+                line, buf = buf.split(b'\n', 1)
+                i, t, n = line.split()
+                res.append((int(i), float(t)))
+                last = time.time()
+                if float(t) > budget_each:
+                    culprit = int(i)
+                    break
         elif time.time() - last > budget_each * 2 + 5:
             culprit = len(res)
-            break
-        if p.poll() is not None and not r:
-            break
+        elif p.poll() is not None:
+            eof = True
     try:
         p.kill()
     except Exception:
@@ -71,11 +195,82 @@ def time_inputs(inputs, budget_each):
     return res, culprit
 
 
+class ModelBlowup(RuntimeError):
+    pass
+
+
+class GuardedModel:
+    """The model driver under a wall-clock and memory watchdog.  The model's matcher is a plain backtracking search like re's: on a rule table
+    WITHOUT a polynomial certificate it can itself explode (observed: 57 GB and 17 minutes on a table with `(\\d+_?)+`), which must not take
+    the machine down.  Same line protocol and sharding as common.Model.ask."""
+
+    def __init__(self, inner, seconds=1800.0, rss_gb=6.0):
+        self.inner, self.seconds, self.rss_kb = inner, seconds, rss_gb * 1024 * 1024
+        self.available = inner.available
+
+    def ask(self, lines, shards=None):
+        if not lines:
+            return []
+        if shards is None:
+            shards = min(NCPU, max(1, len(lines) // 200))
+        if shards <= 1:
+            return self._ask1(lines)
+        from concurrent.futures import ThreadPoolExecutor
+        chunks = [lines[i::shards] for i in range(shards)]
+        with ThreadPoolExecutor(shards) as ex:
+            outs = list(ex.map(self._ask1, chunks))
+        res = [None] * len(lines)
+        for i, o in enumerate(outs):
+            res[i::shards] = o
+        return res
+
+    def _ask1(self, lines):
+        p = subprocess.Popen([DRIVER], stdin=subprocess.PIPE, stdout=subprocess.PIPE, stderr=subprocess.PIPE, text=True)
+        data = '\n'.join(lines) + '\n'
+        t0 = time.time()
+        import threading
+        box = {}
+
+        def work():
+            box['r'] = p.communicate(input=data)
+        th = threading.Thread(target=work, daemon=True)
+        th.start()
+        while th.is_alive():
+            th.join(1.0)
+            if not th.is_alive():
+                break
+            rss = 0
+            try:
+                with open('/proc/%d/status' % p.pid) as f:
+                    for ln in f:
+                        if ln.startswith('VmRSS:'):
+                            rss = int(ln.split()[1])
+            except Exception:
+                pass
+            if rss > self.rss_kb or time.time() - t0 > self.seconds:
+                p.kill()
+                th.join()
+                raise ModelBlowup('model driver stopped by the watchdog after %.0fs at %d MB resident (%d request lines)' % (time.time() - t0, rss // 1024, len(lines)))
+        out, err = box['r']
+        out = out.split('\n')
+        if out and out[-1] == '':
+            out.pop()
+        if p.returncode != 0 or len(out) != len(lines):
+            raise RuntimeError('driver failed rc=%s answered %d of %d lines: %s' % (p.returncode, len(out), len(lines), err[-500:]))
+        return out
+
+
 def run(ctx):
     size = ctx.n(2000, 6000)
     ins = pumps(ctx, size, not ctx.quick())
     if ctx.broken:
         ins = pumps(ctx, 60, True) + pumps(ctx, size, True)
+    known = set(ins)
+    dp, nrep = derived_pumps(ctx, size)
+    dp = [s for s in dp if s not in known]
+    ctx.dist['derived_pumps'] = len(dp)
+    ctx.dist['unbounded_repeats_in_rules'] = nrep
+    ins = dp + ins       # derived ones first: they are aimed at one repeat of one rule each
     t0 = time.time()
     # shard over cores
     import concurrent.futures
@@ -100,7 +295,27 @@ def run(ctx):
     ctx.samples.append({'slowest': short(worst[1] or '', 50), 'seconds': round(worst[0], 4)})
     ctx.notes.append('timing phase %.1fs for %d pump strings' % (time.time() - t0, len(ins)))
     # correspondence of the regex semantics on short pumps
+    if ctx.failures:
+        # a failing input exists already; the model (a backtracking matcher too) would explode on the same rule
+        ctx.notes.append('model phases not run: the timing phase already produced a failing input')
+        return
     if ctx.model.available:
+        plain_model, ctx.model = ctx.model, GuardedModel(ctx.model)
+        try:
+            model_phases(ctx)
+        except ModelBlowup as e:
+            if not ctx.broken:
+                raise                    # on a certified table the model's work is bounded by lex_work_poly: this must not happen
+            ctx.notes.append('model phases aborted on the uncertified table: %s' % e)
+            ctx.count('model_watchdog_tripped')
+        finally:
+            ctx.model = plain_model
+    else:
+        ctx.notes.append('model driver unavailable: correspondence streams skipped')
+
+
+def model_phases(ctx):
+    if True:
         shorts = [s for s in pumps(ctx, 12, False) if len(s) <= 30]
         ctx.rng.shuffle(shorts)
         streams.s_re(ctx, shorts[: ctx.n(500, 5000)])
@@ -120,11 +335,13 @@ def run(ctx):
                 w1, w2 = int(x.split()[1]), int(y.split()[1])
                 if w1 > 0 and w2 > 0:
                     exps.append(math.log(w2 / w1) / math.log(len(b) / len(a)))
+        lb = ctx.model.ask(['lexbound'])[0].split()
+        if lb[:1] == ['ok']:
+            ctx.dist['lex_bound_coefficient'], ctx.dist['lex_bound_degree'] = int(lb[1]), int(lb[2])
+            ctx.dist['rule_work_degrees'] = lb[3]
         if exps:
             ctx.dist['lexwork_growth_exponent_max'] = round(max(exps), 2)
             ctx.dist['lexwork_growth_exponent_median'] = round(sorted(exps)[len(exps) // 2], 2)
-    else:
-        ctx.notes.append('model driver unavailable: correspondence streams skipped')
 
 
 def replay(ctx, payload):
